@@ -361,6 +361,6 @@ def matches_finding(f, r):
         if cv is None:
             return False
         P, Q = _pt(t[2]), _pt(t[4])
-        rng_ = range(-3, 4) if t[1] == "trick" else range(-1, 2)
+        rng_ = range(-3, 4) if t[1].split(".")[0] == "trick" else range(-1, 2)
         return any((i, j) != (0, 0) and cv.add(cv.mul(P, i), cv.mul(Q, j)) is None for i in rng_ for j in rng_)
     return False
